@@ -26,6 +26,7 @@ use framehop::{
 struct CountingAlloc;
 static ALLOCS: AtomicU64 = AtomicU64::new(0);
 static COUNT_ON: AtomicBool = AtomicBool::new(false);
+static COUNT_ITEMS: AtomicBool = AtomicBool::new(false);
 thread_local! {
     // const-initialised: reading it never allocates
     static IS_SCRIPT_THREAD: std::cell::Cell<bool> = const { std::cell::Cell::new(false) };
@@ -426,13 +427,20 @@ struct A64<P>(std::marker::PhantomData<P>);
 
 macro_rules! iter_impl {
     ($u:expr, $pc:expr, $r:expr, $c:expr, $rs:expr, $n:expr, $via_trait:expr, $out:expr) => {{
+        // with `count=1` in the config line the allocator calls made inside iter_frames() and every
+        // next() are counted (formatting the results is not)
+        let counting = COUNT_ITEMS.load(Ordering::Relaxed);
+        COUNT_ON.store(counting, Ordering::Relaxed);
         let mut it = $u.iter_frames($pc, $r, $c, $rs);
+        COUNT_ON.store(false, Ordering::Relaxed);
         for _ in 0..$n {
+            COUNT_ON.store(counting, Ordering::Relaxed);
             let res = if $via_trait {
                 fallible_iterator::FallibleIterator::next(&mut it)
             } else {
                 it.next()
             };
+            COUNT_ON.store(false, Ordering::Relaxed);
             $out.push(fmt_fres(&res));
         }
     }};
@@ -816,12 +824,17 @@ fn run<A: ArchOps>(lines: Vec<String>, hang_ms: u64) {
                         let r = catch_unwind(AssertUnwindSafe(|| {
                             A::iter(u, pc, regs, c, &mut rs, n, via_trait, &mut outv);
                         }));
-                        let _ = a0;
+                        COUNT_ON.store(false, Ordering::Relaxed);
+                        let suffix = if COUNT_ITEMS.load(Ordering::Relaxed) {
+                            format!(" ; allocs {}", ALLOCS.load(Ordering::Relaxed) - a0)
+                        } else {
+                            String::new()
+                        };
                         match r {
-                            Ok(()) => format!("iter {}", outv.join(" | ")),
+                            Ok(()) => format!("iter {}{}", outv.join(" | "), suffix),
                             Err(_) => {
                                 outv.push(classify_panic());
-                                format!("iter {}", outv.join(" | "))
+                                format!("iter {}{}", outv.join(" | "), suffix)
                             }
                         }
                     }
@@ -830,6 +843,7 @@ fn run<A: ArchOps>(lines: Vec<String>, hang_ms: u64) {
             }
             "trace" => {
                 // like `manual`, but every item also shows sp and fp after the step (C10 / C11)
+                let trace_a0 = ALLOCS.load(Ordering::Relaxed);
                 let uid = t.next();
                 let cid = t.next();
                 let pc = t.u64();
@@ -845,7 +859,9 @@ fn run<A: ArchOps>(lines: Vec<String>, hang_ms: u64) {
                             let (s0, f0) = A::sp_fp(&regs);
                             outv.push(format!("ok ip 0x{:x} sp=0x{:x} fp=0x{:x}", pc, s0, f0));
                             for _ in 1..n {
+                                COUNT_ON.store(COUNT_ITEMS.load(Ordering::Relaxed), Ordering::Relaxed);
                                 let r = A::unwind(u, addr, &mut regs, c, &mut rs);
+                                COUNT_ON.store(false, Ordering::Relaxed);
                                 let (s1, f1) = A::sp_fp(&regs);
                                 match r {
                                     Ok(Some(ra)) => match FrameAddress::from_return_address(ra) {
@@ -869,10 +885,15 @@ fn run<A: ArchOps>(lines: Vec<String>, hang_ms: u64) {
                                 }
                             }
                         }));
+                        COUNT_ON.store(false, Ordering::Relaxed);
                         if r.is_err() {
                             outv.push(classify_panic());
                         }
-                        format!("iter {}", outv.join(" | "))
+                        if COUNT_ITEMS.load(Ordering::Relaxed) {
+                            format!("iter {} ; allocs {}", outv.join(" | "), ALLOCS.load(Ordering::Relaxed) - trace_a0)
+                        } else {
+                            format!("iter {}", outv.join(" | "))
+                        }
                     }
                     _ => "bad".into(),
                 }
@@ -1094,6 +1115,7 @@ fn main() {
                     match k {
                         "arch" => arch = v.to_string(),
                         "policy" => policy = v.to_string(),
+                        "count" => COUNT_ITEMS.store(v == "1", Ordering::Relaxed),
                         _ => {}
                     }
                 }
